@@ -39,6 +39,7 @@ def handle (line : String) : String :=
   | "parsep" :: rest => handleParseProg rest
   | "tok" :: rest => handleTok rest
   | "macro" :: rest => handleMacro rest
+  | "withmacro" :: rest => handleWithMacro rest
   | "makeargs" :: rest => handleMakeArgs rest
   | "builderr" :: rest => handleBuildErr rest
   | "getlines" :: rest => handleGetLines rest
